@@ -136,6 +136,11 @@ TEMPLATES = [
     lambda t, u: '\\cmd %c\n %d\n[' + t + ']' + u,
     lambda t, u: '\\cmd{a} %' + t + '\n%\n {' + u + '}',
     lambda t, u: '\\cmd\n%c\n{' + t + '}' + u,
+    # groups behind \end{..} separated so that an argument scan of \end would stop part way (seeded C16-r5-1)
+    lambda t, u: '\\begin{e}x\\end{e}[' + t + '] {' + u + '}',
+    lambda t, u: '\\begin{e}x\\end{e}{' + t + '}\n\n{' + u + '}[w]',
+    lambda t, u: '\\begin{e}x\\end{e}{' + t + '} [' + u + ']\n{v}',
+    lambda t, u: '\\begin{itemize}\\item x\\end{itemize}[' + t + ']\n\n[' + u + '] {v}',
 ]
 NTEMPLATES = len(TEMPLATES)
 
